@@ -1,4 +1,4 @@
-from tables.util import llist, lstr
+from tables.util import lbool, llist, lstr
 
 NAME = "C04"
 
@@ -9,8 +9,60 @@ def tables():
 
     ci = CallInterface(posonlyargs=["p"], args=["a"], vararg="v", kwonlyargs=["k"], kwarg="w")
     order = {"p": "posonly", "a": "args", "v": "vararg", "k": "kwonly", "w": "kwarg"}
-    return [
+    return from_call_probe() + error_probe() + [
         f"def ifaceAllOrder : List String := {llist([order[x] for x in ci.all])}",
         f"def varargStandIn : String := {lstr(su.VARARG_NAME)}",
         f"def kwargStandIn : String := {lstr(su.KWARGS_NAME)}",
+    ]
+
+
+PROBE_CALL = "f(p, *q, k1=a, **m, k2=b.c, **n, k3=d[0])"
+
+
+def from_call_probe():
+    """What `CallArguments.from_call` records for one written call that has a `*iterable` among the positionals and
+    `**mapping`s before / between the explicit keywords, with an implicit `self`."""
+    import ast
+
+    import impl
+    from rattr.config.state import enter_file
+    from rattr.models.symbol import CallArguments
+
+    impl.reset_config()
+    node = ast.parse(PROBE_CALL).body[0].value
+    with enter_file(impl.Path("target.py")), impl.Tap() as tap:
+        got = CallArguments.from_call(node, self="s")
+    errors = [e for e in tap.events if e["level"] == "error"]
+
+    def pairs(xs):
+        return "[" + ", ".join(f"({lstr(a)}, {lstr(b)})" for a, b in xs) + "]"
+
+    return [
+        f"/-- `CallArguments.from_call(ast.parse({PROBE_CALL!r}), self='s')` -/",
+        f"def fromCallProbeArgs : List String := {llist(list(got.args))}",
+        f"def fromCallProbeKwargs : List (String × String) := {pairs(list(got.kwargs.items()))}",
+        f"def fromCallProbeErrors : Nat := {len(errors)}",
+    ]
+
+
+def error_probe():
+    """Is a line printed by `error.error(...)` — for every warning level x where the diagnostic arises (the target
+    file / another file / no current file = result simplification), not strict."""
+    import impl
+    from rattr import error as rattr_error
+    from rattr.config import Config
+
+    rows = []
+    for w in ("none", "local", "default", "all"):
+        for place, cur in (("target", impl.Path("target.py")), ("import", impl.Path("other.py")), ("none", None)):
+            impl.reset_config(_warning_level=w)
+            Config().state.current_file = cur
+            with impl.Tap() as tap:
+                impl.outcome_of(rattr_error.error, "probe")
+            rows.append((w, place, [e["level"] for e in tap.printed] == ["error"]))
+    impl.reset_config()
+    return [
+        "/-- (warning level, place, does `error.error('probe')` print exactly one `error` line) -/",
+        "def errorShownProbe : List (String × String × Bool) := ["
+        + ", ".join(f"({lstr(w)}, {lstr(pl)}, {lbool(b)})" for w, pl, b in rows) + "]",
     ]
